@@ -38,7 +38,10 @@ def kinds_for(sys_):
 def lib_script(sc, fault=None):
     L = []
     if fault:
-        L.append("fault %s %s %d %d %d" % fault)
+        L.append("fault %s %s %d %d %d" % tuple(fault[:5]))
+        if len(fault) > 6 and fault[6]:
+            k2, kind2, arg2 = fault[6]
+            L.append("fault %s %s %d %d %d" % (fault[0], fault[1], k2, kind2, arg2))
     k = sc["kind"]
     if k == "write":
         return "\n".join(L) + "\n" + gen.writer_script(sc["cfg"], seg=sc["seg"]) + "iocounts\n"
@@ -70,7 +73,7 @@ def fired_during(r, opname):
 def judge_lib(sc, r, cdir, fault):
     """(sig, detail) or None.  r: run result with the fault injected."""
     k = sc["kind"]
-    tag = "%s:%s.%s:%s" % (k, fault[0], fault[1], KN[fault[3]])
+    tag = "%s:%s.%s:%s%s" % (k, fault[0], fault[1], KN[fault[3]], "+" + KN[fault[6][1]] if len(fault) > 6 and fault[6] else "")
     if k == "write":
         cl = r.first(op="close")
         if cl and cl["rc"] == 1:
@@ -142,9 +145,19 @@ def tool_cmd(sc, tools):
     raise ValueError(k)
 
 
-def run_tool(sc, tools, cdir, fault, preload):
+CLASS_PATHS = {"t-zck": {"input": "in.dat", "output": "out.zck"}, "t-unzck": {"input": "arch.zck", "output": "arch"},
+               "t-unzck-c": {"input": "arch.zck", "stdout": "stdout.bin"}, "t-unzck-dict": {"input": "arch.zck", "output": "arch.zdict"},
+               "t-read_header-f": {"input": "arch.zck"}}
+ST_TRACE = "trace=read,write,lseek,pread64,pwrite64,readv,writev"
+ST_RE = None
+
+
+def run_tool(sc, tools, cdir, fault, preload, probe_strace_cls=None):
+    """fault: (cls, sys, k, kind, arg, via, second).  via 'S' = strace syscall injection on the class's path (independent of
+    which libc entry point the tool uses), 'P' = LD_PRELOAD shim (short counts with real partial transfer, temp files, double faults)."""
+    import re
     os.makedirs(cdir, exist_ok=True)
-    for fn in ("out.zck", "arch", "arch.zdict", "stdout.bin", "pl.log"):
+    for fn in ("out.zck", "arch", "arch.zdict", "stdout.bin", "pl.log", "st.log"):
         try:
             os.unlink(os.path.join(cdir, fn))
         except FileNotFoundError:
@@ -154,19 +167,50 @@ def run_tool(sc, tools, cdir, fault, preload):
     else:
         open(os.path.join(cdir, "arch.zck"), "wb").write(sc["_B"])
     argv, classes, extra = tool_cmd(sc, tools)
-    env = {"PATH": os.environ.get("PATH", "/usr/bin:/bin"), "LC_ALL": "C", "TMPDIR": cdir, "LD_PRELOAD": preload, "ZCKV_CLASSES": classes,
-           "ZCKV_LOG": os.path.join(cdir, "pl.log")}
-    env.update(extra)
-    if fault:
-        env["ZCKV_FAULT"] = "%s:%s:%d:%d:%d" % fault
+    env = {"PATH": os.environ.get("PATH", "/usr/bin:/bin"), "LC_ALL": "C", "TMPDIR": cdir}
+    via = fault[5] if fault and len(fault) > 5 else "P"
+    st_cls = probe_strace_cls or (fault[0] if fault and via == "S" else None)
+    if st_cls:
+        path = os.path.join(os.path.realpath(cdir), CLASS_PATHS[sc["kind"]][st_cls])
+        pre = ["strace", "-f", "-o", os.path.join(cdir, "st.log"), "-P", path, "-e", ST_TRACE]
+        if fault:
+            sysn = {"read": "read", "write": "write", "lseek": "lseek"}[fault[1]]
+            what = {1: "error=EIO", 2: "error=ENOSPC", 3: "error=EINTR", 5: "retval=0"}[fault[3]]
+            pre += ["-e", "inject=%s:%s:when=%d" % (sysn, what, fault[2])]
+        argv = pre + argv
+    else:
+        env.update({"LD_PRELOAD": preload, "ZCKV_CLASSES": classes, "ZCKV_LOG": os.path.join(cdir, "pl.log")})
+        env.update(extra)
+        if fault:
+            env["ZCKV_FAULT"] = "%s:%s:%d:%d:%d" % tuple(fault[:5])
+            if len(fault) > 6 and fault[6]:
+                env["ZCKV_FAULT2"] = "%s:%s:%d:%d:%d" % ((fault[0], fault[1]) + tuple(fault[6]))
     r = core.run_proc(argv, cdir, env=env, stdout_path=os.path.join(cdir, "stdout.bin"))
-    r.events = core.parse_log(os.path.join(cdir, "pl.log"))
+    if st_cls:
+        evs = []
+        counts = {}
+        try:
+            for ln in open(os.path.join(cdir, "st.log"), errors="replace"):
+                m = re.match(r"^\d+\s+(\w+)\(", ln)
+                if not m:
+                    continue
+                sy = {"pread64": "read", "readv": "read", "pwrite64": "write", "writev": "write"}.get(m.group(1), m.group(1))
+                counts[sy] = counts.get(sy, 0) + 1
+                if "(INJECTED)" in ln:
+                    evs.append({"ev": "io", "INJECTED": fault[3] if fault else 0, "sys": sy, "cls": st_cls, "via": "strace", "line": ln.strip()[:160]})
+        except FileNotFoundError:
+            pass
+        for sy, n in counts.items():
+            evs.append({"ev": "iocount", "cls": st_cls, "sys": sy, "n": n, "via": "strace"})
+        r.events = evs
+    else:
+        r.events = core.parse_log(os.path.join(cdir, "pl.log"))
     return r
 
 
 def judge_tool(sc, r, cdir, fault):
     k = sc["kind"]
-    tag = "%s:%s.%s:%s" % (k, fault[0], fault[1], KN[fault[3]])
+    tag = "%s:%s.%s:%s%s" % (k, fault[0], fault[1], KN[fault[3]], "+" + KN[fault[6][1]] if len(fault) > 6 and fault[6] else "")
     if r.rc != 0:
         return None
 
@@ -236,7 +280,8 @@ def worker(case):
             if r.timed_out and not r.cpu_exceeded:
                 return core.verdict(cid, "inconclusive", detail="watchdog", case=case)
             inj = [e for e in r.events if e.get("INJECTED")]
-            if not inj:
+            need = 2 if len(fault) > 6 and fault[6] else 1
+            if len(inj) < need:
                 stats["fault_points_not_reached"] = stats.get("fault_points_not_reached", 0) + 1
                 continue
             stats["faults_fired"] = stats.get("faults_fired", 0) + 1
@@ -328,9 +373,11 @@ class C12(core.Check):
         for sc in scs:
             # fault-free run -> counts
             w = {"dir": os.path.join(self.work, "probe_" + sc["name"]), "sc": dict(sc), "faults": [], "zh": ctx["zh"], "tools": ctx["tools"], "preload": ctx["preload"], "counts": {}}
-            counts = self.probe(w)
+            counts, pcounts, bypass = self.probe(w)
             if not counts:
                 raise RuntimeError("fault-free run of %s observed no I/O" % sc["name"])
+            for b_ in bypass:
+                self.extra_cov.setdefault("io_not_visible_to_preload_shim(strace used)", set()).add("%s:%s.%s" % (sc["name"], b_[0], b_[1]))
             faults = []
             for (cls, sys_), n in sorted(counts.items()):
                 if sys_ not in ("read", "write", "lseek", "ftrunc", "ftruncate"):
@@ -343,21 +390,36 @@ class C12(core.Check):
                 if len(ks) > cap:
                     ks = sorted(set(ks[:cap // 2] + ks[-cap // 4:] + r.sample(ks, cap // 4)))
                     self.exhaustive = False
+                is_tool = sc["kind"].startswith("t-")
                 for k in ks:
                     for kind, arg in kinds_for(sys_):
                         if sc["kind"] == "t-zck" and cls == "input" and kind == 5:
                             continue  # read()==0 on the file to be compressed IS end of input, not a failure the tool could notice
-                        faults.append((cls, sys_, k, kind, arg))
+                        via = "P"
+                        if is_tool and cls in CLASS_PATHS[sc["kind"]] and kind != 4:
+                            via = "S"   # syscall-level injection: sees the I/O whatever libc entry point the tool uses
+                        if via == "P" and (cls, sys_) not in pcounts:
+                            continue
+                        if via == "P" and k > pcounts[(cls, sys_)]:
+                            continue
+                        faults.append((cls, sys_, k, kind, arg, via, None))
+                    # two consecutive short transfers on the same descriptor (the retry is short as well)
+                    if sys_ == "write" and (cls, sys_) in pcounts and k < pcounts[(cls, sys_)] + 1:
+                        for a1, a2 in ((1, 1), (0, 0), (3, 2)):
+                            faults.append((cls, sys_, k, 4, a1, "P", (k + 1, 4, a2)))
+                    if sys_ == "read" and (cls, sys_) in pcounts and k < pcounts[(cls, sys_)]:
+                        faults.append((cls, sys_, k, 4, 1, "P", (k + 1, 1, 0)))
             self.count("fault_points_enumerated", len(faults))
             self.count("scenarios", 1)
             cnt = {"%s.%s" % k: v for k, v in counts.items()}
             for i in range(0, len(faults), 25):
-                out.append({"sc": dict(sc), "faults": faults[i:i + 25], "zh": ctx["zh"], "tools": ctx["tools"], "preload": ctx["preload"], "counts": cnt})
+                out.append({"sc": {k_: v_ for k_, v_ in sc.items() if not k_.startswith("_")}, "faults": faults[i:i + 25], "zh": ctx["zh"], "tools": ctx["tools"], "preload": ctx["preload"], "counts": cnt})
         if self.exhaustive is None:
             self.exhaustive = True
         return out
 
     def probe(self, w):
+        """Fault-free run(s).  Returns (counts per (class, syscall), counts seen by the in-process/preload interposer, bypassed keys)."""
         sc = w["sc"]
         for key in ("D", "B", "dict", "A", "T"):
             if sc.get(key) is not None:
@@ -367,24 +429,37 @@ class C12(core.Check):
             r = run_tool(sc, w["tools"], d, None, w["preload"])
             if r.rc != 0:
                 raise RuntimeError("fault-free tool run %s failed: rc=%s %r" % (sc["name"], r.rc, r.stderr[-300:]))
+            pcounts = {(e["cls"], e["sys"]): e["n"] for e in r.events if e.get("ev") == "iocount"}
+            counts = dict(pcounts)
+            bypass = []
+            for cls in CLASS_PATHS[sc["kind"]]:
+                rs = run_tool(sc, w["tools"], d, None, w["preload"], probe_strace_cls=cls)
+                if rs.rc != 0:
+                    raise RuntimeError("fault-free strace run %s failed: rc=%s %r" % (sc["name"], rs.rc, rs.stderr[-300:]))
+                for e in rs.events:
+                    if e.get("ev") == "iocount" and e["sys"] in ("read", "write", "lseek"):
+                        key = (cls, e["sys"])
+                        if pcounts.get(key, 0) == 0 and e["n"] > 0:
+                            bypass.append(key)
+                        counts[key] = max(counts.get(key, 0), e["n"])
+            return counts, pcounts, bypass
+        files = {}
+        if sc["kind"] == "write":
+            files["in.dat"] = sc["_D"]
+            if sc.get("_dict"):
+                files["dict.bin"] = sc["_dict"]
+        elif sc["kind"] in ("copy", "update"):
+            files["src.zck"] = sc["_A"]
+            files["B.zck"] = sc["_B"]
+            if sc.get("_T") is not None:
+                files["tgt.zck"] = sc["_T"]
         else:
-            files = {}
-            if sc["kind"] == "write":
-                files["in.dat"] = sc["_D"]
-                if sc.get("_dict"):
-                    files["dict.bin"] = sc["_dict"]
-            elif sc["kind"] in ("copy", "update"):
-                files["src.zck"] = sc["_A"]
-                files["B.zck"] = sc["_B"]
-                if sc.get("_T") is not None:
-                    files["tgt.zck"] = sc["_T"]
-            else:
-                files["f.zck"] = sc["_B"]
-            r = core.run_zh(w["zh"], d, lib_script(sc), files, name="probe")
-            if not r.ended:
-                raise RuntimeError("fault-free run %s did not finish: %s" % (sc["name"], r.harness_error))
+            files["f.zck"] = sc["_B"]
+        r = core.run_zh(w["zh"], d, lib_script(sc), files, name="probe")
+        if not r.ended:
+            raise RuntimeError("fault-free run %s did not finish: %s" % (sc["name"], r.harness_error))
         counts = {}
         for e in r.events:
             if e.get("ev") == "iocount":
                 counts[(e["cls"], e["sys"])] = e["n"]
-        return counts
+        return counts, dict(counts), []
